@@ -289,7 +289,7 @@ fn main() {
                     }
                     ctx.exhaustive.insert(format!("printing of all functions, n={}", n), true);
                 } else {
-                    let reps = if thorough { 60 } else { 4 };
+                    let reps = if thorough { 400 } else { 4 };
                     for _ in 0..reps {
                         for fam in Fam::ALL {
                             let f = gen::gen(fam, n, &mut rng);
@@ -313,7 +313,7 @@ fn main() {
                 ctx.exhaustive.insert(format!("all strings over the 24-symbol alphabet up to length width+2, n={}", n), true);
             }
             _ => {
-                let reps = if thorough { 40 } else { 3 };
+                let reps = if thorough { 300 } else { 3 };
                 for r in 0..reps {
                     let fam = Fam::ALL[r % Fam::ALL.len()];
                     let f = Model::from_blocks(n, &gen::gen(if r == 0 { Fam::Random } else { fam }, n, &mut rng));
